@@ -1,6 +1,11 @@
 use std::io;
 use std::ops::{Add, AddAssign, Sub};
 use std::slice::SliceIndex;
+#[cfg(indicatif_verif)]
+use crate::verif_hooks::{RwLock, RwLockWriteGuard};
+#[cfg(indicatif_verif)]
+use std::sync::Arc;
+#[cfg(not(indicatif_verif))]
 use std::sync::{Arc, RwLock, RwLockWriteGuard};
 use std::thread::panicking;
 use std::time::Duration;
